@@ -48,7 +48,9 @@ func exactShape(a *AxisDef, dzf float64, raw int32) shaped {
 		n = big.NewRat(int64(raw), int64(a.Max))
 	}
 	sh := shaped{CanNeg: a.Min < 0}
-	if a.Center != nil && *a.Center {
+	// deadzone_at_center moves the deadzone of an axis that starts at 0 to the middle of its range; a signed axis already
+	// has its deadzone at the centre (0), the option changes nothing there
+	if a.Center != nil && *a.Center && a.Min >= 0 {
 		n = new(big.Rat).Sub(new(big.Rat).Mul(n, big.NewRat(2, 1)), ratOne)
 		sh.CanNeg = true
 	}
